@@ -12,7 +12,11 @@ def handleCif : List String → Option String
       let bs ← decBytesTok bytes
       match utf8Decode bs with
       | none => pure "NOT-UTF8"
-      | some cs => pure (outcomeTok (readCif o cs))
+      | some cs =>
+        -- inputs whose text values depend on unmodelled `f64` printing are not predicted
+        match lexCif cs with
+        | .ok b => if textPredictable b then pure (outcomeTok (readCif o cs)) else pure "UNSUPPORTED"
+        | .error _ => pure (outcomeTok (readCif o cs))
   | _ => none
 
 end PdbModel
